@@ -214,7 +214,7 @@ def oracle_tds(sc, obs):
         if not sg['ok'] and delta < 1:
             bad.append(('exit-code-on-failure', 'exit_code did not grow on a failed run'))
     # a rejected step stores no row: number of stamps == number of accepted verdicts
-    acc = sum(1 for v in obs['verdicts'] if v[0] in 'cx')
+    acc = sum(1 for v in obs['verdicts'] if v[0] in 'cxe')
     if len(obs['stamps']) != acc and len(set(obs['stamps'])) == len(obs['stamps']) and 'limit_store' not in sc:
         bad.append(('rows-vs-accepted-steps', '%d rows stored for %d accepted steps' % (len(obs['stamps']), acc)))
     if any(v[0] == 'n' for v in obs['verdicts']) and not obs['segs'][-1]['busted']:
